@@ -112,7 +112,11 @@ class C11:
                                                                   b"/r/canary", b"x", b"/r/layers/y", b".", b".."]))})
             elif r < 0.96:
                 init.append({"p": x, "k": "f", "m": 0o644, "c": [5]})
-            if rng.random() < 0.7:
+            r2 = rng.random()
+            if r2 < 0.15:
+                # the content-metadata path is a symlink to a file outside the layer (it is unlinked, never written through)
+                init.append({"p": LAYERS + [b(tn + b".toml")], "k": "l", "t": b(rng.choice([b"../canary/f", b"/r/canary/f", b"y.toml", b"nope"]))})
+            elif r2 < 0.75:
                 init.append({"p": LAYERS + [b(tn + b".toml")], "k": "f", "m": rng.choice([0o644, 0o444]), "c": b(b"[types]\n")})
             for sx in [b"cdx.json", b"spdx.json", b"syft.json"]:
                 if rng.random() < 0.3:
@@ -131,7 +135,11 @@ class C11:
             if rng.random() < 0.1:
                 # the layers directory itself not writable
                 init[1]["m"] = 0o555
-            cases.append({"init": init, "layers": LAYERS, "name": b(tn), "op": rng.choice(["delete_layer", "delete_layer", "rdr"])})
+            op = rng.choice(["delete_layer", "delete_layer", "rdr", "recreate"])
+            top = next((n for n in init if n["p"] == x), None)
+            if op == "recreate" and (top is None or top["k"] != "d"):
+                op = "delete_layer"       # "recreate" is a request for a layer that exists as a directory
+            cases.append({"init": init, "layers": LAYERS, "name": b(tn), "op": op})
         return cases
 
     def run_impl(self, cases, workdir):
@@ -144,7 +152,7 @@ class C11:
     def to_coq(self, c, o):
         r = o["res"]
         res = "ROk" if r["ok"] else (f"(RErrno {r['err']})" if r["err"] in ERRS else "ROther")
-        op = "OpDeleteLayer" if c["op"] == "delete_layer" else "OpRdr"
+        op = {"delete_layer": "OpDeleteLayer", "rdr": "OpRdr", "recreate": "OpRecreate"}[c["op"]]
         return f"(mkCase {cq_fs(o['pre'])} {cq_path(c['layers'])} {cq_bytes(c['name'])} {op} {res} {cq_fs(o['post'])})"
 
     def nontrivial(self, c, o):
